@@ -129,12 +129,18 @@ def process_function(res, rep, contract, repo, findings, opts):
         res.solver['by_backend'][k] += v
     for t in rep.trusted:
         res.trusted.add(t)
+    nsat = 0
     for c in rep.covers:
         res.covers['total'] += 1
         if c['result'] == 'sat':
             res.covers['sat'] += 1
+            nsat += 1
         elif c['result'] == 'unsat':
-            res.crashes.append('vacuity: case %r of %s is unreachable (%s)' % (c['case'], rep.qual, c['what']))
+            res.covers.setdefault('infeasible_cases', []).append('%s: %s (%s)' % (rep.qual, c['case'], c['what']))
+            if 'len(' not in c['case']:
+                res.crashes.append('vacuity: case %r of %s is unreachable (%s)' % (c['case'], rep.qual, c['what']))
+    if not nsat:
+        res.crashes.append('vacuity: no reachable case in %s' % rep.qual)
     pid = res.pid
     refuted_by_obl = {}
     for r in rep.refuted:
